@@ -476,7 +476,9 @@ func checkWindowOrder(c *Ctx, prop string) {
 		af := factsOf(api)
 		n := 0
 		isScan := func(t *Term) bool {
-			return t != nil && t.Op == "call" && strings.HasSuffix(t.Sym, "liskbft.BFTVotes).contradicting")
+			// the scan, or — when the scan was written into this function — the kernel's verdict on
+			// the header the scan selected
+			return t != nil && t.Op == "call" && (strings.HasSuffix(t.Sym, "liskbft.BFTVotes).contradicting") || strings.HasSuffix(t.Sym, "contradiction.AreDistinctHeadersContradicting"))
 		}
 		for _, r := range Returns(api) {
 			rf := af
@@ -494,6 +496,21 @@ func checkWindowOrder(c *Ctx, prop string) {
 				if cst, isC := stripConv(r.Results[0]).(*ssa.Const); isC && cst.Value != nil {
 					want := cst.Value.String() == "true"
 					ok = rf.EveryPathHas(r.Block(), func(f Fact) bool { return !f.IsCmp && isScan(f.B) && f.Truth == want })
+					// an empty window has nothing to contradict: "false" under len(window) == 0 is the scan's own answer
+					if !ok && !want {
+						// the window search found no header of this generator
+						ok = rf.EveryPathHas(r.Block(), func(f Fact) bool {
+							s := f.String()
+							return f.IsCmp && strings.Contains(s, "slices.IndexFunc") && strings.Contains(s, ".blockBFTInfos") && (strings.HasSuffix(s, " < 0") || strings.HasSuffix(s, " == -1") || strings.HasPrefix(s, "0 > ") || strings.HasPrefix(s, "-1 == "))
+						})
+					}
+					if !ok && !want {
+						ok = rf.EveryPathHas(r.Block(), func(f Fact) bool {
+							return f.IsCmp && f.Entails(CmpSpec{A: Matcher{"len(window)", func(t *Term) bool {
+								return t.Op == "call" && t.Sym == "builtin:len" && strings.HasSuffix(t.Args[0].String(), ".blockBFTInfos")
+							}}, NoB: true, Rel: LE, D: 0})
+						})
+					}
 				}
 			}
 			c.Require(prop+".O3 verdict-is-the-window-scan", FuncKey(api)+": return "+t.String(), p.InstrPos(r), "a successful answer is the result of scanning the stored window for this header", ok, "returns "+t.String())
